@@ -67,3 +67,10 @@ package scparser
 //@ func GetTryParams
 //@ may-panic
 //@ ensures len(result0) + len(result1) == len(p)
+
+// Whether a verification script is one of the two standard forms (a pure function of its bytes).
+//@ spec stdScript(b seq) bool
+//@ func IsStandardContract
+//@ assumed
+//@ pure
+//@ ensures result == stdScript(script)
